@@ -6,8 +6,9 @@ Basic layer of the executable model (core Lean only): index functions, the count
 generic kernel interpreter that runs such a table as the code's loop nest.
 
 Conventions
-* a vector is an index function `Nat → K` together with a length known to the caller; a matrix is
-  `Mat K` = shape + entry function `Nat → Nat → K`.  In-place updates `y[t] = v` become `upd y t v`.
+* a read-only vector is an index function `Nat → K` together with a length known to the caller; the vector `y`
+  a kernel writes to is a `Vec K` (size + index function), and `y[t] = v` becomes `y.upd t v`; a matrix is
+  `Mat K` = shape + entry function `Nat → Nat → K`.
 * the scalar type `K` is only assumed to have the core operations (`Zero Add Sub Mul Neg Div`,
   `DecidableEq`) and a conjugation function `conj : K → K` passed explicitly.  The driver runs the
   definitions over `Int`, Gaussian integers and a prime field; the theorems in `Props/C01.lean`
@@ -20,8 +21,15 @@ def forN {σ : Type _} : Nat → (Nat → σ → σ) → σ → σ
   | 0, _, s => s
   | n+1, f, s => f n (forN n f s)
 
+/-- a vector that is written to: its size and its entries.  (Read-only vectors are plain index functions.
+The structure also keeps the loop state a data value for the compiled driver: with a bare function as state
+the compiler may merge the binders of `fun i y => (fun k => …)` and re-evaluate every store on every read.) -/
+structure Vec (K : Type _) where
+  n : Nat
+  get : Nat → K
+
 /-- in-place store `y[t] = v` -/
-def upd {K : Type _} (y : Nat → K) (t : Nat) (v : K) : Nat → K := fun k => if k = t then v else y k
+def Vec.upd {K : Type _} (y : Vec K) (t : Nat) (v : K) : Vec K := ⟨y.n, fun k => if k = t then v else y.get k⟩
 
 /-- a dense matrix: shape and entry function (`e i j` is `(*this)[i][j]`) -/
 structure Mat (K : Type _) where
@@ -105,18 +113,18 @@ def rhs (hasAlpha hasConj : Bool) (conj : K → K) (alpha a xv : K) : K :=
 
 /-- the generic dense kernel: the loop nest described by a `KernelSig`, run on `y` in place -/
 def kernelSem (s : KernelSig) (conj : K → K) (rows cols : Nat) (A : Nat → Nat → K) (alpha : K)
-    (x y : Nat → K) : Nat → K :=
+    (x : Nat → K) (y : Vec K) : Vec K :=
   forN (bound s.outerBound rows cols) (fun o y =>
-    let y0 := if s.zeroInit then upd y o 0 else y
+    let y0 := if s.zeroInit then y.upd o 0 else y
     forN (bound s.innerBound rows cols) (fun n y =>
       let t := sel s.tgt o n
-      upd y t (applyUpd s.upd (y t)
+      y.upd t (applyUpd s.upd (y.get t)
         (rhs s.alpha s.conj conj alpha (A (sel s.row o n) (sel s.col o n)) (x (sel s.xix o n))))) y0) y
 
 /-- the generic diagonal kernel: one loop over the diagonal -/
 def diagKernelSem (s : DiagSig) (conj : K → K) (n : Nat) (d : Nat → K) (alpha : K)
-    (x y : Nat → K) : Nat → K :=
-  forN n (fun i y => upd y i (applyUpd s.upd (y i) (rhs s.alpha s.conj conj alpha (d i) (x i)))) y
+    (x : Nat → K) (y : Vec K) : Vec K :=
+  forN n (fun i y => y.upd i (applyUpd s.upd (y.get i) (rhs s.alpha s.conj conj alpha (d i) (x i)))) y
 
 end
 
